@@ -109,13 +109,13 @@ func init() {
 
 type c09Run struct {
 	failCall int // index of the public call during which the sink first failed (-1 none)
-	calls  []callRes
-	sink   []byte
-	offs   []int
-	failed bool
-	pan    *core.PanicInfo
-	input  []byte
-	fmt    string
+	calls    []callRes
+	sink     []byte
+	offs     []int
+	failed   bool
+	pan      *core.PanicInfo
+	input    []byte
+	fmt      string
 }
 
 func c09Input(writer string) []byte {
